@@ -22,6 +22,7 @@ pub(crate) fn chan_cap(default: usize) -> usize {
 }
 #[cfg(not(feature = "adlt_verif"))]
 #[inline(always)]
+#[allow(dead_code)]
 pub(crate) fn chan_cap(default: usize) -> usize {
     default
 }
